@@ -276,7 +276,7 @@ class Checker:
 # ------------------------------------------------------------------------------------------
 # exploration driver
 # ------------------------------------------------------------------------------------------
-def explore(run, checker_factory, label, pool=16, time_budget=None, seed_paths=48):
+def explore(run, checker_factory, label, pool=16, time_budget=None, seed_paths=160):
     """Explore one configuration. Returns dict with plain results."""
     t0 = _time.time()
     h, results, stats = paths.explore_parallel(checker_factory, 'fn', pool, 'on_path',
